@@ -28,11 +28,30 @@ LawsHoldOn(G) ==
 Grid(n) == { Q(k, n) : k \in 0..n }
 ASSUME LawsHoldOn(Grid(6))
 
+\* ---- compound expressions: [op |-> "leaf", q |-> <<n, d>>] | [op |-> "plus" | "times" | "negate" | "normalize", a |-> Seq(expr)]
+RECURSIVE Gcd(_, _)
+Gcd(a, b) == IF b = 0 THEN a ELSE Gcd(b, a % b)
+Red(q) == IF q[1] = 0 THEN Q(0, 1) ELSE LET g == Gcd(q[1], q[2]) IN Q(q[1] \div g, q[2] \div g)
+RECURSIVE EvalX(_)
+EvalX(e) ==
+  CASE e.op = "leaf"   -> Red(e.q)
+    [] e.op = "plus"   -> Red(Plus(EvalX(e.a[1]), EvalX(e.a[2])))
+    [] e.op = "times"  -> Red(Times(EvalX(e.a[1]), EvalX(e.a[2])))
+    [] e.op = "negate" -> Red(Neg(EvalX(e.a[1])))
+    [] e.op = "normalize" -> LET x == EvalX(e.a[1])
+                                 z == EvalX(e.a[2])
+                             IN  Red(Q(x[1] * z[2], x[2] * z[1]))        \* the harness never divides by zero
+
+\* ---- operands of very different magnitude: <<n, d, e>> stands for (n / d) * 10^(-e), with 1/10 <= n/d <= 1
+\* plus: the exact sum lies in [m, m * (1 + 10^(-gap+1))] where m is the larger operand; the judge returns m and gap
+Larger(a, b) == IF a[3] < b[3] THEN a ELSE IF b[3] < a[3] THEN b ELSE IF a[1] * b[2] >= b[1] * a[2] THEN a ELSE b
+AbsI(x) == IF x < 0 THEN -x ELSE x
+
 Cases == JsonDeserialize(IOEnv.CASES_FILE)
-\* expected exact result of one operation: [def |-> BOOLEAN, n, d]
+\* expected exact result of one operation: [def |-> BOOLEAN, n, d, e]   (value = n / d * 10^-e)
 Expected(C) ==
-  LET R(q) == [ def |-> TRUE, n |-> q[1], d |-> q[2] ]
-      U == [ def |-> FALSE, n |-> 0, d |-> 1 ]
+  LET R(q) == [ def |-> TRUE, n |-> q[1], d |-> q[2], e |-> 0, gap |-> 0 ]
+      U == [ def |-> FALSE, n |-> 0, d |-> 1, e |-> 0, gap |-> 0 ]
   IN  CASE C.op = "plus"   -> R(Plus(C.a, C.b))
         [] C.op = "times"  -> R(Times(C.a, C.b))
         [] C.op = "negate" -> R(Neg(C.a))
@@ -41,6 +60,10 @@ Expected(C) ==
         [] C.op = "ad_complement" -> R(Neg(SumSeq(C.ws)))
         [] C.op = "one"  -> R(One)
         [] C.op = "zero" -> R(Zero)
+        [] C.op = "expr" -> R(EvalX(C.x))
+        [] C.op = "wide_plus"  -> LET m == Larger(C.wa, C.wb)
+                                  IN  [ def |-> TRUE, n |-> m[1], d |-> m[2], e |-> m[3], gap |-> AbsI(C.wa[3] - C.wb[3]) ]
+        [] C.op = "wide_times" -> [ def |-> TRUE, n |-> C.wa[1] * C.wb[1], d |-> C.wa[2] * C.wb[2], e |-> C.wa[3] + C.wb[3], gap |-> 0 ]
 Results == [ c \in DOMAIN Cases |-> [ id |-> Cases[c].id ] @@ Expected(Cases[c]) ]
 ASSUME ndJsonSerialize(IOEnv.OUT_FILE, Results)
 =============================================================================
